@@ -24,9 +24,12 @@ struct N {
     row_idx: usize,
 }
 
+/// whether the warm-up result is collected (deterministic in the text; both ways occur)
+fn rng_bit(t: &str) -> bool { t.len() % 2 == 0 }
+
 pub fn run(run: &mut Run) {
     run.rule = "random worlds without path-rewrite plugins (random lexicon incl. homographs, overlapping words, negative and \
-i16-extreme costs, random connection matrix, user dictionaries, every OOV provider mix) x random texts; the real lattice is dumped \
+i16-extreme costs, random connection matrix, user dictionaries, every OOV provider mix) x random texts x history (new tokenizer, or one whose lattice held 1-4 longer/shorter texts before); the real lattice is dumped \
 through the verif hook; non-trivial = at least 2 alternative complete paths (some row has >= 2 connected candidates); distinct by line".into();
     let n = run.opts.count;
     let mut cur_world: Option<(usize, Result<World, String>)> = None;
@@ -48,8 +51,22 @@ through the verif hook; non-trivial = at least 2 alternative complete paths (som
         let mut rng = Rng::for_case(run.opts.seed, idx);
         let text = gen_text(&mut rng, w, 10);
         let dic = &w.dic;
+        // two cases in three run on a tokenizer whose lattice was used before by 1..4 texts of other lengths (longer and
+        // shorter): the lattice that is searched has to be the lattice of THIS text
+        let mut warm: Vec<String> = vec![];
+        if idx % 3 != 0 {
+            for _ in 0..1 + rng.below(4) {
+                warm.push(match rng.below(3) { 0 => gen_text(&mut rng, w, 24), 1 => gen_text(&mut rng, w, 3), _ => gen_text(&mut rng, w, 10) });
+            }
+        }
+        run.bump(&format!("history:{}-earlier-texts", warm.len()));
         let res = catch(|| {
             let mut tok = StatefulTokenizer::new(dic, Mode::C);
+            let mut wl = MorphemeList::empty(dic);
+            for wt in &warm {
+                tok.reset().push_str(wt);
+                if tok.do_tokenize().is_ok() && rng_bit(wt) { let _ = wl.collect_results(&mut tok); }
+            }
             tok.reset().push_str(&text);
             let r = tok.do_tokenize();
             let lat = tok.verif_lattice();
@@ -223,7 +240,7 @@ through the verif hook; non-trivial = at least 2 alternative complete paths (som
             }
         }
         if let Some((k, what)) = fail {
-            run.fail(idx, &format!("c02:{}", k), &format!("{} | text={:?} world={}", what, text, w.desc.join(" ")));
+            run.fail(idx, &format!("c02:{}", k), &format!("{} | text={:?} earlier texts on the same tokenizer={:?} world={}", what, text, warm, w.desc.join(" ")));
         }
     }
 }
